@@ -7,6 +7,7 @@ import ZV.Model.ZCore
 import ZV.Model.ZCoreSpec
 import ZV.Props.C03Statements
 import ZV.Proofs.ZCoreCheck
+import ZV.Proofs.Lub
 
 namespace ZV.Props.C03
 open ZV.ZCore
@@ -34,5 +35,25 @@ theorem rejected_has_no_type : Statement.rejected_has_no_type := ZV.ZCore.reject
 
 /-- Acceptance of a program is derivability of `⊢ body : OS`. -/
 theorem program_accepted_iff : Statement.program_accepted_iff := ZV.ZCore.program_accepted_iff_pf
+
+/-- The level discipline of `lub.rs` decides exactly alpha-equivalence (for every pair of types;
+the naming discipline is not even needed). -/
+theorem lub_iff_alpha : LubStatement.lub_iff_alpha := ZV.Lub.lub_iff_alpha_pf
+
+/-- the same, with no side condition at all -/
+theorem lubEq_iff_alphaEq (a b : ZV.Lub.Ty) :
+    ZV.Lub.lubEq {} a b = true ↔ ZV.Lub.alphaEq a b = true := ZV.Lub.lubEq_iff_alphaEq a b
+
+/-- Comparison is reflexive. -/
+theorem lub_refl : LubStatement.lub_refl := ZV.Lub.lub_refl_pf
+
+/-- Alpha-equivalence is an equivalence relation. -/
+theorem alpha_equiv : LubStatement.alpha_equiv := ZV.Lub.alpha_equiv_pf
+
+/-- `forall X Y. X` and `forall X Y. Y` differ. -/
+theorem permuted_binders_differ : LubStatement.permuted_binders_differ := ZV.Lub.permuted_binders_differ_pf
+
+/-- A bound variable is never equal to a free one. -/
+theorem bound_vs_free_differ : LubStatement.bound_vs_free_differ := ZV.Lub.bound_vs_free_differ_pf
 
 end ZV.Props.C03
